@@ -208,6 +208,10 @@ def _run_script(w, script, f_locals, ret_value, exc_value):
             return "C01:application-locals-changed"
         if [e for e in _fingerprint(f_globals) if e[0] != "__builtins__"] != g_before:
             return "C01:application-module-globals-changed"
+        if world.GLOBAL_RANDOM["draws"]:
+            # the module-level functions of `random` share one generator with the application: a program that seeded it
+            # gets different numbers with the agent attached
+            return "C01:agent-drew-from-the-process-wide-random-generator(application's random sequence changed)"
     return ""
 
 
@@ -448,10 +452,27 @@ def _mut_returns_none_on_error():
     TriggerHandler.trace_call = trace_call
 
 
-MUTANTS = {"drop_action_guard": _mut_drop_action_guard, "returns_none_on_error": _mut_returns_none_on_error}
+def _mut_global_random():
+    """Snapshot ids drawn from the module-level functions of `random` again (the process-wide generator)."""
+    import deep.api.tracepoint.eventsnapshot as es
+
+    class Proxy:
+        def getrandbits(self, n):
+            return es.random.getrandbits(n)
+    es._id_generator = Proxy()
+    real = world.install_determinism
+
+    def install(clock):
+        r = real(clock)
+        es._id_generator = Proxy()
+        return r
+    world.install_determinism = install
+
+
+MUTANTS = {"global_random": _mut_global_random, "drop_action_guard": _mut_drop_action_guard, "returns_none_on_error": _mut_returns_none_on_error}
 
 CONDITIONS = [
-    dict(fn="lifetime", cubes=["cfg == %d" % c for c in range(10)], twins=["reach"],
+    dict(fn="lifetime", cubes=["cfg == %d" % c for c in range(10)], twins=["reach", "mutant:global_random@cfg == 0"],
          bounds="10 configurations x 1-3 runs of the event script; a weakly referenced host object in the locals must die once the application drops it"),
     dict(fn="hostile", cubes={"quick": ["cfg == %d and where == %d and src == 0 and vk in (0, 8, 12, 16, 17, 19, 20, 22, 29, 31, 33)" % (c, wh) for c in range(10) for wh in range(3)] +
                                        ["cfg == %d and src == %d and vk == 0 and where == 0" % (c, s) for c in (6, 7) for s in (1, 2)],
